@@ -14,15 +14,42 @@ def optOf {α} (f : Json → P α) (j : Json) (k : String) : P (Option α) :=
   | none => pure none
   | some v => do pure (some (← f v))
 
-def goalOf (j : Json) : P (GState × Bool) := do
-  let g : GState := { time := ← ivOf (← field j "time"), hasPos := ← getBool j "hasPos",
-                      ori := ← optOf ivOf j "ori", vel := ← optOf ivOf j "vel" }
-  pure (g, ← getBool j "inPos")
+def ptOf (j : Json) : P CR.Geom.Pt := do
+  match ← asArr j with
+  | [x, y] => pure ⟨← asRat x, ← asRat y⟩
+  | _ => throw "point: expected [x, y]"
+
+def primOf (j : Json) : P CR.Geom.Prim := do
+  match ← getStr j "k" with
+  | "rect" => pure (.rect (← getRat j "l") (← getRat j "w") (← ptOf (← field j "c")) (← getRat j "cos") (← getRat j "sin"))
+  | "circ" => pure (.circ (← getRat j "r") (← ptOf (← field j "c")))
+  | "poly" => pure (.poly (← getList ptOf j "v"))
+  | k => throw s!"primitive kind {k}"
+
+def shapeOf (j : Json) : P CR.Geom.Shape := do
+  match ← getStr j "k" with
+  | "group" => pure (.group (← getList primOf j "s"))
+  | _ => pure (.prim (← primOf j))
+
+def goalOf (j : Json) : P GState := do
+  pure { time := ← ivOf (← field j "time"), pos := ← optOf shapeOf j "pos",
+         ori := ← optOf ivOf j "ori", vel := ← optOf ivOf j "vel" }
 
 def stateOf (j : Json) : P St := do
-  pure { t := ← getRat j "t", hasPos := ← getBool j "hasPos", ori := ← optOf asRat j "ori",
-         vel := ← optOf asRat j "vel", velY := ← optOf asRat j "velY",
-         speed := ← getRat j "speed", heading := ← getRat j "heading" }
+  pure { t := ← getRat j "t", pos := ← optOf ptOf j "pos", ori := ← optOf asRat j "ori",
+         vel := ← optOf asRat j "vel", velY := ← optOf asRat j "velY" }
+
+/-- A function given by a finite table `[[a, b, value], …]` (default 0): the harness lists the argument pairs the
+    library could possibly evaluate; WHICH pair the model looks up is the model's own choice. -/
+def tableFn (rows : List (Rat × Rat × Rat)) (a b : Rat) : Rat :=
+  match rows.find? (fun r => r.1 == a && r.2.1 == b) with
+  | some r => r.2.2
+  | none => 0
+
+def rowOf (j : Json) : P (Rat × Rat × Rat) := do
+  match ← asArr j with
+  | [a, b, v] => pure (← asRat a, ← asRat b, ← asRat v)
+  | _ => throw "table row: expected [a, b, value]"
 
 def ansOf (j : Json) : P (CR.Res Bool) := do
   match fieldOpt j "ok" with
@@ -36,7 +63,8 @@ def handle (op : String) (a : Json) : P Json := do
     let ε ← getRat a "eps"
     let goals ← getList goalOf a "goals"
     let s ← stateOf (← field a "state")
-    pure <| resJ Json.bool (isReached τ ε goals s)
+    let F : Fns := ⟨tableFn (← getList rowOf a "hyp"), tableFn (← getList rowOf a "at2")⟩
+    pure <| resJ Json.bool (isReached F τ ε goals s)
   | "goal_reached" =>
     let ans ← getList ansOf a "answers"
     pure <| resJ (fun (p : Bool × Int) => Json.arr #[Json.bool p.1, intJ p.2]) (goalReached ans)
